@@ -196,6 +196,11 @@ static void run_one(const Subject* sj, const Replay& rp, const std::vector<dsim:
     for (auto& e : ctx.hist) if (e.done) ++out.ops_done;
     if (!ctx.viol.empty()) { out.cls = ctx.viol[0].cls; out.detail = ctx.viol[0].detail; }
     out.nontrivial = out.st.max_concurrent >= 2 && out.st.preemptions >= 1;
+    if (rp.prop == "C20") {   // single-threaded property: a run is non-trivial if it made at least 3 API calls; its signature is the call/result sequence
+        out.nontrivial = out.ops_done >= 3; uint64_t h = 1469598103934665603ULL;
+        for (auto& e : ctx.hist) if (e.done) { uint64_t v[4] = {(uint64_t)e.kind, (uint64_t)e.a, (uint64_t)e.r, (uint64_t)e.r2}; for (uint64_t x : v) h = (h ^ x) * 1099511628211ULL; }
+        out.st.sig_hash = h ^ std::hash<std::string>()(sj->name);
+    }
 }
 
 static std::string jesc(const std::string& s) { std::string o; for (unsigned char c : s) { if (c == '"' || c == '\\') { o += '\\'; o += (char)c; } else if (c == '\n') o += "\\n"; else if (c < 32) o += ' '; else o += (char)c; } return o; }
